@@ -58,7 +58,7 @@ structure SameSituation (s : JState) (w : World) (name : String) (b : BinFile) (
   files : ∀ p, s.mt p = w.mtime p
   bin : s.binT.lookup name = some mt
   bins : ∀ q t, s.binT.lookup q = some t → w.mtime (binPath w q) = some t
-  includes : (declOf s name).includes = b.includes
+  includes : ∀ i, i ∈ (declOf s name).includes → i ∈ b.includes ∨ w.mtime i = none   -- ('!' entries name no file)
   inherits : (declOf s name).inherits = b.inherits
   parents : ∀ i q, i ∈ b.inherits → Reach w i q → ∀ lp, w.progs.lookup q = some lp →
     lp.inherits = (declOf s q).inherits ∧ (∀ f, f ∈ q :: (declOf s q).includes → f ∈ lp.files)
@@ -88,7 +88,7 @@ theorem model_use_passes_stale_clause (s : JState) (w : World) (name : String) (
     (h : loadBinary w name = .use) (hm : w.mtime (binPath w name) = some mt)
     (hb : w.bins.lookup (binPath w name) = some b) (hc : SameSituation s w name b mt) :
     staleReasons s name = [] := by
-  obtain ⟨mt', b', hm', hb', _, _, _, _, hsim, hsrc, hinc, _, hinh⟩ := never_stale w name h
+  obtain ⟨mt', b', hm', hb', _, _, _, _, hsim, hsrc, hinc, _, _, hinh⟩ := never_stale w name h
   rw [hm] at hm'
   rw [hb] at hb'
   cases hm'
@@ -136,9 +136,12 @@ theorem model_use_passes_stale_clause (s : JState) (w : World) (name : String) (
     · simp [h0, hn]
   · rw [List.map_eq_nil_iff, List.filter_eq_nil_iff]
     intro i hi
-    rw [hc.includes] at hi
-    obtain ⟨t, ht, hle⟩ := hinc i hi
-    rcases mtFact i (by intro t' ht'; rw [ht] at ht'; cases ht'; exact hle) with h0 | ⟨t0, h0, hn⟩
+    have hcond : ∀ t', w.mtime i = some t' → t' ≤ mt := by
+      rcases hc.includes i hi with hin | hnone
+      · obtain ⟨t, ht, hle⟩ := hinc i hin
+        intro t' ht'; rw [ht] at ht'; cases ht'; exact hle
+      · intro t' ht'; rw [hnone] at ht'; cases ht'
+    rcases mtFact i hcond with h0 | ⟨t0, h0, hn⟩
     · simp [h0]
     · simp [h0, hn]
   · rw [List.map_eq_nil_iff, List.filter_eq_nil_iff]
